@@ -198,6 +198,15 @@ def api_cases(tier, rng):
                             log=("dst", "dst0"), chk=(), mapper="gamma" if op == "map_inplace" else None, direction="b")
             c["echo"] = {"op": op, "src": d, "dst": d, "same": 1}
             cases.append(c)
+    # container life cycle (Image::new zeroed, buffer length, copy independent, into_vec, typed access only with the own type)
+    for pt in rz.ALL_PT:
+        for (w, h) in ((0, 0), (0, 4), (1, 1), (3, 2), (7, 5), (16, 1)):
+            cases.append({"op": "container", "pt": pt, "w": w, "h": h, "seed": len(cases), "_spec": {},
+                          "echo": {"op": "container", "pt": pt, "w": w, "h": h}})
+    # Filter::new accepts exactly the finite positive supports
+    for (cls, val) in (("pos", {"n": 3, "q": 2}), ("pos", {"n": 1, "q": 1000}), ("tiny", "denorm"), ("huge", "max"), ("zero", 0), ("zero", "-0"),
+                       ("neg", {"n": -1, "q": 1}), ("neg", {"n": -1, "q": 1024}), ("nan", "nan"), ("inf", "inf"), ("neginf", "-inf")):
+        cases.append({"op": "filter_new", "support": val, "_spec": {}, "echo": {"op": "filter_new", "class": cls}})
     return cases
 
 
@@ -240,7 +249,7 @@ def run(res, tier, seed):
     res.add_trace(tr, len(acases), "TraceApi")
     for (cid, reason) in tr["bad"]:
         c = acases[cid]
-        res.violation(what="C05 api " + reason, reason=reason, op=c["op"], src_pt=c["echo"]["src"], dst_pt=c["echo"]["dst"], same_size=c["echo"]["same"],
+        res.violation(what="C05 api " + reason, reason=reason, op=c["op"], src_pt=c["echo"].get("src", c["echo"].get("pt")), dst_pt=c["echo"].get("dst"), same_size=c["echo"].get("same"), echo=c["echo"],
                       ret=arecs[cid].get("ret"))
     res.cov["api_decision_cases"] = len(acases)
     res.samples = [rz.describe(c) for c in (cases[0], cases[len(cases) // 2], cases[-1])]
